@@ -681,9 +681,64 @@ def absorb_single_use_procedures(repo) -> List[str]:
                     absorbed.append(f'{mi.base}:{hname} -> {c.qualname}')
                     changed = True
                     break
+            # module-level private helpers used several times, every use a statement-level call in one function of the same module
+            # (`a, b = _h(self, x)` three times): all sites are written out, or none
+            for hname, h in list(mi.functions.items()):
+                k = refs.get(hname, 0)
+                if not _is_private(hname) or k < 2 or k > 8 or defs.get(hname, 0) != 1 or _eligible(h.node, False) is not None:
+                    continue
+                callers = [f for f in mi.functions.values() if f is not h] + [m for ci in mi.classes.values() for m in ci.methods.values()]
+                hosts = [c for c in callers if any(isinstance(n, ast.Name) and n.id == hname for n in ast.walk(c.node))]
+                if len(hosts) != 1:
+                    continue
+                c = hosts[0]
+                if any(isinstance(n, ast.Name) and n.id == hname and isinstance(n.ctx, ast.Store) for n in ast.walk(c.node)):
+                    continue
+                work = clone(c.node)
+                set_parents(work)
+                done_sites = 0
+                ok = True
+                for _g in range(k):
+                    site = _call_site(work, hname, False)
+                    if site is None:
+                        break
+                    st, call, _ = site
+                    if getattr(st, 'value', None) is not call:
+                        ok = False          # only whole-statement calls here (nested ones are left to the single-use rules)
+                        break
+                    new = _inline_at(work, st, call, h.node, False, '')
+                    if new is None or not _replace_stmt(work, st, _split_tuple_assign(new)):
+                        ok = False
+                        break
+                    done_sites += 1
+                    set_parents(work)
+                if not ok or done_sites != k or any(isinstance(n, ast.Name) and n.id == hname for n in ast.walk(work)):
+                    continue
+                # swap the worked copy in
+                c.node.body[:] = work.body
+                del mi.functions[hname]
+                if h.node in mi.tree.body:
+                    mi.tree.body.remove(h.node)
+                absorbed.append(f'{mi.base}:{hname} (x{k}) -> {c.qualname}')
+                changed = True
             if len(absorbed) > before:
                 ast.fix_missing_locations(mi.tree)
                 set_parents(mi.tree)
         if not changed:
             break
     return absorbed
+
+
+def _split_tuple_assign(stmts: List[ast.stmt]) -> List[ast.stmt]:
+    """`a, b = x, y` as `a = x; b = y` when no right-hand side reads one of the targets (then the order of binding cannot matter)."""
+    out: List[ast.stmt] = []
+    for st in stmts:
+        if isinstance(st, ast.Assign) and len(st.targets) == 1 and isinstance(st.targets[0], ast.Tuple) and isinstance(st.value, ast.Tuple) \
+                and len(st.targets[0].elts) == len(st.value.elts) and all(isinstance(t, ast.Name) for t in st.targets[0].elts):
+            tn = {t.id for t in st.targets[0].elts}
+            if not ({n.id for v in st.value.elts for n in ast.walk(v) if isinstance(n, ast.Name)} & tn):
+                for t, v in zip(st.targets[0].elts, st.value.elts):
+                    out.append(ast.copy_location(ast.Assign(targets=[t], value=v), st))
+                continue
+        out.append(st)
+    return out
